@@ -716,9 +716,9 @@ theorem processBlock_safe {U D : List BlockAbs} {s : State} {b : BlockAbs} (hwf 
             obtain ⟨s2, e2⟩ := dres
             cases e2 <;> exact r1
 
-theorem processHeader_safe {U D : List BlockAbs} {s : State} {b : BlockAbs} (hwf : WF U)
-    (hbU : b ∈ U) (hs : SInv U D [] s) : SInv U D [] (processHeader s b).1 := by
-  unfold processHeader
+theorem processHeaderCore_safe {U D : List BlockAbs} {s : State} {b : BlockAbs} (hwf : WF U)
+    (hbU : b ∈ U) (hs : SInv U D [] s) : SInv U D [] (processHeaderCore s b).1 := by
+  unfold processHeaderCore
   cases hlp : lookup s.idx b.parent with
   | none => exact hs
   | some p =>
@@ -793,6 +793,12 @@ theorem processHeader_safe {U D : List BlockAbs} {s : State} {b : BlockAbs} (hwf
             · intro h _ hd; rw [hdat]; exact hd
           · intro w hw; rw [hpool] at hw; rw [hdat]; exact hs.wOK w hw
           · rw [hpool]; exact hs.wND
+
+theorem processHeader_safe {U D : List BlockAbs} {s : State} {b : BlockAbs} (hwf : WF U)
+    (hbU : b ∈ U) (hs : SInv U D [] s) : SInv U D [] (processHeader s b).1 := by
+  obtain ⟨x, hx⟩ := processHeader_shape s b
+  rw [hx]
+  exact sinv_congr (s := (processHeaderCore s b).1) rfl rfl rfl rfl (processHeaderCore_safe hwf hbU hs)
 
 /-! ### InvalidateBlock / ReconsiderBlock keep the safety invariant -/
 
